@@ -764,3 +764,22 @@ package kafka
 //@   loop 0 invariant err == nil && msok(r) && r.readerStack.count != 0 && (r.readerStack == S0 || r.readerStack.reader != S0.reader)
 //@   loop 0 invariant S0.remain >= 0 && S0.reader == old(r.readerStack.reader) && S0.reader.$rpos == old(r.readerStack.reader.$rpos) + (old(r.readerStack.remain) - S0.remain)
 //@   loop 0 invariant old(r.readerStack.count) > 0 ==> r.lengthRemain == old(r.lengthRemain)
+
+//@ property C03
+
+// offsetStash.merge is a per-partition max-merge: afterwards every commit of the batch is covered by the stash
+// (the entry exists and is at least the commit's offset) - so a later commit request carries at least what the
+// application acknowledged - and no entry is invented: each value is its old value or the offset of one of the
+// merged commits for that partition.
+//@ func (offsetStash).merge
+//@   requires o != nil && (forall kid ref :: inmap(o, kid) ==> mapat(o, kid) != nil)
+//@   ensures forall kid ref :: inmap(o, kid) ==> mapat(o, kid) != nil
+//@   option noframe
+//@   modifies heap
+//@   ensures forall i :: 0 <= i && i < len(commits) ==> haskey(o, commits[i].topic) && haskey(o[commits[i].topic], commits[i].partition) && o[commits[i].topic][commits[i].partition] >= commits[i].offset
+//@   ensures forall kid ref, p int :: inmap(o, kid) && haskey(mapat(o, kid), p) ==> (old(inmap(o, kid) && haskey(mapat(o, kid), p)) && mapat(o, kid)[p] == old(mapat(o, kid)[p])) || (exists i :: 0 <= i && i < len(commits) && commits[i].partition == p && commits[i].offset == mapat(o, kid)[p])
+//@   loop 0 invariant -1 <= rangeindex && rangeindex < len(commits) && (forall kid ref :: inmap(o, kid) ==> mapat(o, kid) != nil)
+//@   loop 0 invariant forall kid ref, p int :: inmap(o, kid) && haskey(mapat(o, kid), p) ==> (old(inmap(o, kid) && haskey(mapat(o, kid), p)) && mapat(o, kid)[p] == old(mapat(o, kid)[p])) || (exists i :: 0 <= i && i <= rangeindex && commits[i].partition == p && commits[i].offset == mapat(o, kid)[p])
+//@   loop 0 invariant forall i :: 0 <= i && i <= rangeindex ==> haskey(o, commits[i].topic)
+//@   loop 0 invariant forall i :: 0 <= i && i <= rangeindex ==> haskey(o, commits[i].topic) && haskey(o[commits[i].topic], commits[i].partition)
+//@   loop 0 invariant forall i :: 0 <= i && i <= rangeindex ==> haskey(o, commits[i].topic) && haskey(o[commits[i].topic], commits[i].partition) && o[commits[i].topic][commits[i].partition] >= commits[i].offset
